@@ -169,8 +169,12 @@ def replay_script(root, consts, steps, rnd):
             elif a == "Finish":
                 if seg.next_init_pick() is not None:
                     raise Diverged("initiation not finished at Finish")
-                if seg.loop():
-                    raise Diverged("state.loop() continues where the behaviour finishes")
+                guard = 0
+                while seg.loop():
+                    # scheduler(): as_completed() returns None when nothing is in flight and the loop goes on
+                    guard += 1
+                    if seg.inflight or guard > 50:
+                        raise Diverged("state.loop() continues where the behaviour finishes")
             elif a == "Kill":
                 events += seg.events
                 seg.close()
@@ -232,6 +236,8 @@ def random_run(root, n, workers, steps, seed, sched_seed, moves=None, cap=None, 
                     break
                 if not seg.loop():
                     break
+                if not seg.inflight:
+                    continue       # scheduler(): as_completed() returns None, nothing to treat
                 pin = rnd.choice(sorted(seg.inflight))
                 md = seg.run_job(pin)
                 stop_between = kill_at is not None and ncomp + 1 >= kill_at and between
